@@ -35,6 +35,7 @@ def c03_1(ctx):
             ctx.fail(fn, fn.node, "join policy '%s' has no branch in _df_index" % k)
         elif not ok(tab[k][1]):
             ctx.fail(fn, tab[k][0], "join policy '%s' returns %s" % (k, tab[k][1]))
+    _only_policy_returns(ctx, fn, seq, fn.params[1], {'i': lambda t: 'intersection' in t, 'o': lambda t: 'union' in t, 'l': lambda t: t == NS('%s[0]' % seq), 'r': lambda t: t == NS('%s[-1]' % seq)}, str_guard=True)
     # explicit index
     ctx.count(1)
     rets = [r for r in returns_of(fn.node) if isinstance(r.value, ast.Call) and call_name(r.value) == '_index' and U(r.value.args[0]) == fn.params[1]]
@@ -50,6 +51,25 @@ def c03_1(ctx):
             ctx.fail(fn, fn.node, "join policy '%s' has no branch in _np_index" % k)
         elif tab[k][1].replace(' ', '') != want:
             ctx.fail(fn, tab[k][0], "array join policy '%s' returns %s, expected %s" % (k, tab[k][1], want))
+    _only_policy_returns(ctx, fn, seq, fn.params[1], {k: (lambda t, w=w: t == NS(w)) for k, w in expect.items()}, str_guard=False)
+
+
+def _only_policy_returns(ctx, fn, seq, policy, table, str_guard):
+    """every path that returns a common index for a named policy must be a row of the policy table: a shortcut that returns before (or
+    instead of) the set operation decides the index without looking at its members"""
+    for p in sym_paths(fn):
+        if p.term != 'return' or p.value is None or (isinstance(p.value, ast.Constant) and p.value.value is None):
+            continue
+        if str_guard and not p.holds('is_str(%s)' % policy, True):
+            continue
+        ctx.count(1, fn.where(p.node))
+        letters = [k for k in table if p.holds("%s[0].lower() == '%s'" % (policy, k), True)]
+        if not letters:
+            ctx.fail(fn, p.node, '%s returns `%s` on the path [%s] without consulting the join policy: the common index must come from the policy table (inner = intersection, outer = union, left = first, right = last), not from a shortcut' % (
+                fn.qual, p.text(), ' & '.join(('' if q else 'not ') + t for t, q, _ in p.conds)[:200]),
+                witness='indices [d1, d2, d3, d6] and [d1, d2, d5, d6] have the same length and end points but a different intersection/union')
+        elif not table[letters[0]](p.text()):
+            ctx.fail(fn, p.node, "join policy '%s' returns %s" % (letters[0], p.text()))
 
 
 @obligation('C03.2', 'MATCH', '_pandas:_df_reindex (pandas branch)',
